@@ -16,9 +16,11 @@ package cpuallocator
 //@ functype Option
 //@   requires arg0 != nil
 //@   modifies arg0.prefer, arg0.flags
-//@ func WithPriority$1 tags=C08
-//@   requires a != nil
+//@   ensures 0 <= arg0.prefer || arg0.prefer == old(arg0.prefer)
+//@ func WithPriority$1
+//@   requires a != nil && 0 <= p
 //@   modifies a.prefer
+//@   ensures[C08] 0 <= a.prefer
 //@ func WithAllocFlags$1 tags=C08
 //@   requires a != nil
 //@   modifies a.flags
@@ -27,24 +29,57 @@ package cpuallocator
 //@ pure part(a *allocatorHelper) cpuset.CPUSet = a.result.Union(a.from)
 //@ pure wfh(a *allocatorHelper) bool = a != nil && a.result.Intersection(a.from).IsEmpty() && a.cnt >= 0
 
-// allocate(): on success exactly the CPUs taken out of a.from; the stages below are proved to keep
-// result/from a partition of the original set and cnt + |result| constant.
+// The two cluster/cache-group stages are not verified yet (several hundred lines each, nested sorters):
+// they are ASSUMED to keep the same bookkeeping invariant as the verified stages.
+//@ assume-contract (*allocatorHelper).takeIdleClusters
+//@   modifies a.result, a.from, a.cnt
+//@   ensures stagePost(a)
+//@ assume-contract (*allocatorHelper).takeCacheGroups
+//@   modifies a.result, a.from, a.cnt
+//@   ensures stagePost(a)
+
+// allocate(): result/from stay a partition of the candidate set, cnt + |result| is constant, and with enough
+// online candidates known to sysfs the request is met (cnt == 0) and the returned set is a.result.
 //@ func (*allocatorHelper).allocate
-//@   requires wfh(a) && a.result.IsEmpty()
+//@   requires wfh(a) && a.result.IsEmpty() && (a.sys != nil ==> topoValid(a) && 0 <= a.prefer)
 //@   modifies a.result, a.from, a.cnt
 //@   ensures[C08] a.result.Union(a.from).Equals(old(a.from)) && a.result.Intersection(a.from).IsEmpty()
 //@   ensures[C08] a.cnt >= 0 && a.cnt + a.result.Size() == old(a.cnt)
 //@   ensures[C08] a.cnt == 0 ==> result.Equals(a.result)
 //@   ensures[C08] a.cnt != 0 ==> result.IsEmpty()
+//@   ensures[C08] a.sys != nil && old(a.cnt <= a.from.Difference(sysOffline(a.sys)).Size() && a.from.IsSubsetOf(sysCPUs(a.sys))) ==> a.cnt == 0
+//@   ensures[C08] a.sys == nil && old(a.cnt <= a.from.Size()) ==> a.cnt == 0
 
-//@ func (*cpuAllocator).AllocateCpus
-//@   requires ca != nil && from != nil && cnt >= 0
+// The statement of C08 for AllocateCpus / ReleaseCpus. Preconditions: the topology cache is well-formed (T4) and
+// the candidate set consists of online CPUs known to sysfs ("candidate set of online CPUs").
+//@ pure candidatesOK(ca *cpuAllocator, F cpuset.CPUSet) bool = ca.sys != nil ==> topoOK(ca.topologyCache) && F.Intersection(sysOffline(ca.sys)).IsEmpty() && F.IsSubsetOf(sysCPUs(ca.sys))
+
+//@ func (*cpuAllocator).allocateCpus
+//@   requires ca != nil && from != nil && cnt >= 0 && candidatesOK(ca, *from)
 //@   let F0 = *from
 //@   modifies *from
 //@   ensures[C08] cnt > F0.Size() ==> result1 != nil && (*from).Equals(F0)
 //@   ensures[C08] cnt <= F0.Size() && result1 == nil ==> result0.Size() == cnt && result0.IsSubsetOf(F0) && (*from).Equals(F0.Difference(result0))
+//@   ensures[C08] cnt <= F0.Size() && result1 != nil ==> (*from).Equals(F0)
 //@ loop 0 in (*cpuAllocator).allocateCpus at "range options"
 //@   modifies a.prefer, a.flags
+//@   invariant a.sys == ca.sys && a.topology == ca.topologyCache && a.result.IsEmpty() && 0 <= a.prefer
+
+//@ func (*cpuAllocator).AllocateCpus
+//@   requires ca != nil && from != nil && cnt >= 0 && candidatesOK(ca, *from)
+//@   let F0 = *from
+//@   modifies *from
+//@   ensures[C08] cnt > F0.Size() ==> result1 != nil && (*from).Equals(F0)
+//@   ensures[C08] cnt <= F0.Size() && result1 == nil ==> result0.Size() == cnt && result0.IsSubsetOf(F0) && (*from).Equals(F0.Difference(result0))
+//@   ensures[C08] cnt <= F0.Size() && result1 != nil ==> (*from).Equals(F0)
+
+// ReleaseCpus(from, n): afterwards *from holds exactly the n CPUs chosen for release, the others are returned.
+//@ func (*cpuAllocator).ReleaseCpus
+//@   requires ca != nil && from != nil && cnt >= 0 && cnt <= (*from).Size() && candidatesOK(ca, *from)
+//@   let F0 = *from
+//@   modifies *from
+//@   ensures[C08] cnt <= F0.Size() && result1 == nil ==> (*from).Size() == cnt && (*from).IsSubsetOf(F0) && result0.Equals(F0.Difference(*from))
+//@   ensures[C08] result1 != nil ==> (*from).Equals(F0)
 
 // ---- id filtering ------------------------------------------------------------------------------------------------
 // Filters are pure predicates (closures over the helper's current state; checked at each call site).
@@ -70,12 +105,14 @@ package cpuallocator
 // ---- hardware well-formedness assumed of the topology cache and sysfs (T4) ----------------------------------
 // Thread-sibling sets are the classes of an equivalence (equal or disjoint); package sets are pairwise
 // disjoint; CPU and package id lists have no duplicates.
-//@ pure topoValid(a *allocatorHelper) bool =
-//@    (forall i idset.ID, j idset.ID :: i in a.topology.core && j in a.topology.core ==>
-//@        a.topology.core[i].Equals(a.topology.core[j]) || a.topology.core[i].Intersection(a.topology.core[j]).IsEmpty()) &&
-//@    (forall i idset.ID, j idset.ID :: i in a.topology.pkg && j in a.topology.pkg && i != j ==> a.topology.pkg[i].Intersection(a.topology.pkg[j]).IsEmpty())
+//@ pure topoOK(t topologyCache) bool =
+//@    (forall i idset.ID, j idset.ID :: i in t.core && j in t.core ==> t.core[i].Equals(t.core[j]) || t.core[i].Intersection(t.core[j]).IsEmpty()) &&
+//@    (forall i idset.ID, j idset.ID :: i != j ==> t.pkg[i].Intersection(t.pkg[j]).IsEmpty())
+//@ pure topoValid(a *allocatorHelper) bool = topoOK(a.topology)
+//@ pure sysCPUs(s sysfs.System) cpuset.CPUSet
 //@ iface github.com/containers/nri-plugins/pkg/sysfs.System.CPUIDs
 //@   ensures newobj(result) && distinctIds(result)
+//@   ensures forall x int :: x in sysCPUs(self) ==> idset.ID(x) in result
 //@ iface github.com/containers/nri-plugins/pkg/sysfs.System.PackageIDs
 //@   ensures newobj(result) && distinctIds(result)
 
@@ -98,3 +135,43 @@ package cpuallocator
 //@   modifies a.result, a.from, a.cnt
 //@   invariant stagePost(a) && distinctIds(cores)
 //@   invariant forall j int :: rangeindex < j && j < len(cores) ==> idleCore(a, offline, cores[j])
+
+// ---- takeIdlePackages ----------------------------------------------------------------------------------------------
+//@ pure pkgSet(a *allocatorHelper, off cpuset.CPUSet, id idset.ID) cpuset.CPUSet =
+//@    a.prefer < NumCPUPriorities ? a.topology.pkg[id].Difference(off).Intersection(a.topology.cpuPriorities[a.prefer]) : a.topology.pkg[id].Difference(off)
+//@ func (*allocatorHelper).takeIdlePackages$1 defines
+//@   requires a != nil && 0 <= a.prefer
+//@   ensures[C08] result == pkgSet(a, offline, id).IsSubsetOf(a.from)
+
+//@ func (*allocatorHelper).takeIdlePackages
+//@   requires wfh(a) && a.sys != nil && topoValid(a) && 0 <= a.prefer
+//@   modifies a.result, a.from, a.cnt
+//@   ensures[C08] stagePost(a)
+//@ loop 0 in (*allocatorHelper).takeIdlePackages at "range pkgs"
+//@   modifies a.result, a.from, a.cnt
+//@   invariant stagePost(a) && distinctIds(pkgs) && a.prefer == old(a.prefer)
+//@   invariant forall j int :: rangeindex < j && j < len(pkgs) ==> pkgSet(a, offline, pkgs[j]).IsSubsetOf(a.from)
+
+// ---- takeIdleThreads: takes single CPUs until the count is met; succeeds when enough online candidates exist -------
+//@ func (*allocatorHelper).takeIdleThreads$1 defines
+//@   requires a != nil
+//@   ensures[C08] result == a.from.Difference(offline).Contains(int(id))
+
+//@ func (*allocatorHelper).takeIdleThreads
+//@   requires wfh(a) && a.sys != nil && a.cnt > 0
+//@   modifies a.result, a.from, a.cnt
+//@   ensures[C08] stagePost(a)
+//@   ensures[C08] old(a.cnt <= a.from.Difference(sysOffline(a.sys)).Size() && a.from.IsSubsetOf(sysCPUs(a.sys))) ==> a.cnt == 0
+//@ loop 0 in (*allocatorHelper).takeIdleThreads at "range cores"
+//@   modifies a.result, a.from, a.cnt
+//@   invariant stagePost(a) && distinctIds(cores) && a.cnt > 0 && offline == sysOffline(a.sys)
+//@   invariant forall j int :: rangeindex < j && j < len(cores) ==> int(cores[j]) in a.from.Difference(offline)
+//@   invariant old(a.cnt <= a.from.Difference(sysOffline(a.sys)).Size() && a.from.IsSubsetOf(sysCPUs(a.sys))) ==>
+//@        a.cnt <= a.from.Difference(offline).Size() && (forall x int :: x in a.from.Difference(offline) ==> (exists j int :: rangeindex < j && j < len(cores) && int(cores[j]) == x))
+
+// takeAny is the topology-free fallback used only when the allocator has no sysfs.System (never the case for
+// allocators made by NewCPUAllocator); it is not verified.
+//@ assume-contract (*allocatorHelper).takeAny
+//@   modifies a.result, a.from, a.cnt
+//@   ensures stagePost(a)
+//@   ensures old(a.cnt <= a.from.Size()) ==> a.cnt == 0
